@@ -41,6 +41,26 @@ type Store interface {
 var Kinds = []string{"ctl", "rmap", "nmap", "nstruct", "rstruct", "nacc", "nstruct0"}
 
 func New(kind string) (Store, error) {
+	rest, wrap, tee := SplitWrap(kind)
+	if tee {
+		a, err := New(rest)
+		if err != nil {
+			return nil, err
+		}
+		b, _ := New(rest)
+		var st Store = &TeeStore{a: a, b: b}
+		if wrap != "" {
+			st = &Wrapped{Store: st, wrap: wrap}
+		}
+		return st, nil
+	}
+	if wrap != "" {
+		in, err := New(rest)
+		if err != nil {
+			return nil, err
+		}
+		return &Wrapped{Store: in, wrap: wrap}, nil
+	}
 	base, mask, err := SplitKind(kind)
 	if err != nil {
 		return nil, err
